@@ -72,8 +72,10 @@ class CheckC02(core.Check):
         pat = parsed.pattern
         psks = {n: gen_bytes("psk%d.%d" % (n, seed), 32) for n in parsed.psks}
         prologue = sessions.prologue_choice(rnd, 32, 64)
-        c.party("A", "i", name, res=res[0], rng="os", prologue=prologue, psks=psks, rec="-")
-        c.party("B", "r", name, res=res[1], rng="os", prologue=prologue, psks=psks, rec="-")
+        # a PSK may also arrive late: through set_psk() just before the message that needs it (the usual server flow)
+        late = {"A": set(n for n in psks if rnd.random() < 0.2), "B": set(n for n in psks if rnd.random() < 0.2)}
+        c.party("A", "i", name, res=res[0], rng="os", prologue=prologue, psks={n: v for n, v in psks.items() if n not in late["A"]}, rec="-")
+        c.party("B", "r", name, res=res[1], rng="os", prologue=prologue, psks={n: v for n, v in psks.items() if n not in late["B"]}, rec="-")
         unneeded = rnd.random() < 0.15
         if needs_local_static(pat, True) or needs_remote_static(pat, False) or unneeded:
             c.op("keygen", "A", out="pubA", flags=("store",))
@@ -94,6 +96,11 @@ class CheckC02(core.Check):
         hs = []
         for i in range(parsed.nmsgs):
             w, r = ("A", "B") if i % 2 == 0 else ("B", "A")
+            for pid in (w, r):
+                for n in sorted(late[pid]):
+                    if (n == 0 and i == 0) or (n > 0 and n - 1 == i):
+                        if pid == w or True:
+                            c.meta.setdefault("setpsk", []).append(c.op("set_psk", pid, loc=n, key=psks[n]))
             lw = c.op("hs_write", w, pay="gen:%d:hp%d.%d" % (pays[i], seed, i), buf=sessions.BIGBUF, out="m%d" % i)
             # payload buffers of every legal size: exact, a few spare bytes, message length, large
             lr = c.op("hs_read", r, msg="$m%d" % i, buf=rnd.choice([sessions.BIGBUF, pays[i], pays[i] + rnd.randrange(1, 16), pays[i] + 16]))
